@@ -18,7 +18,7 @@ Inductive ev :=
 Fixpoint ord_src (e : lexpr) : list ev :=
   let fix ords (l : list lexpr) : list ev := match l with [] => [] | x :: r => ord_src x ++ ords r end in
   match e with
-  | LVar _ | LPrim _ | LTag _ => []
+  | LVar _ | LPrim _ _ | LTag _ => []
   | LConstr c a => ords a ++ [EvOp (DConstr c (length a))]
   | LTuple a => ords a ++ [EvOp (DTuple (length a))]
   | LArray a => ords a ++ [EvOp (DArray (length a))]
@@ -70,7 +70,7 @@ with ord_a (a : aexpr) : list ev :=
 Fixpoint depth (e : lexpr) : nat :=
   let fix dl (l : list lexpr) : nat := match l with [] => 0%nat | x :: r => Nat.max (depth x) (dl r) end in
   S match e with
-    | LVar _ | LPrim _ | LTag _ => 0%nat
+    | LVar _ | LPrim _ _ | LTag _ => 0%nat
     | LConstr _ a | LTuple a | LArray a => dl a
     | LLet _ v b => Nat.max (depth v) (depth b)
     | LIf c t f => Nat.max (depth c) (Nat.max (depth t) (depth f))
